@@ -9,6 +9,8 @@ for d in sorted(glob.glob(os.path.join(here, "seeded", "*"))):
         continue
     j = json.load(open(m))
     caught = j.get("detection", {}).get("caught_by") or "not a detection target: neutralised by a later fix (see NOTE.md)"
+    if "NOT-A-VIOLATION" in d:
+        caught = "not a detection target: does not violate the statement as given (see NOTE.md)"
     rows.append((os.path.basename(d), j.get("property", "?"), j.get("title", "").replace("|", "/"), caught.replace("|", "/")))
 with open(os.path.join(here, "seeded", "README.md"), "w") as f:
     f.write("# Seeded property-breaking changes\n\nEach directory holds `patch.diff` (applies to /repo HEAD with `git -C /repo apply`), the author's\n"
